@@ -315,6 +315,15 @@ impl GovModel {
         .to_string()
     }
 
+    /// Whether any record of the configuration is (or was) about this
+    /// Principal: a Grant to it or to the group while it is a member, a
+    /// Delegation to it, or a bound policy.
+    pub fn touches(&self, who: Who) -> bool {
+        self.policy.is_some()
+            || self.grants.iter().any(|g| if g.to_group { self.group.contains(&who) } else { g.grantee == who })
+            || self.delegs.iter().any(|d| d.to == who)
+    }
+
     fn stmt_matches(&self, s: &MStmt, who: Who, strength: u8, perm: &str, r: &Res, f: &Flags) -> bool {
         // relaxations widen allows only; a deny statement is matched exactly
         let f = if s.deny { Flags::default() } else { *f };
